@@ -65,9 +65,6 @@ def build_state(case, ctx):
     """Returns sim (advanced k steps) or None."""
     import rebound
     from .. import rb
-    if case["cfg"]["family"] == "trace" and case["backward"]:
-        ctx.skip("trace with dt<0 (known finding recorded under C08)")
-        return None
     try:
         if case.get("tree"):
             parts = [dict(p) for p in case["system"]["particles"]]
